@@ -22,7 +22,7 @@ def A(x):
     if isinstance(x, SymTensor):
         return x.a
     if isinstance(x, torch.Tensor):
-        return x.detach().cpu().numpy()
+        return x.detach().cpu().resolve_conj().resolve_neg().numpy()
     if isinstance(x, (list, tuple)):
         if any(isinstance(y, (SymTensor, S)) or (isinstance(y, (list, tuple)) and _has_sym(y)) for y in x):
             return np.array([A(y) if not isinstance(y, S) else y for y in x] + [None], dtype=object)[:-1] \
